@@ -24,7 +24,7 @@ ASSUMPTIONS = [
     "'can be read back' = the reader returns without exception; equality is not demanded (A31)",
     "a generator that does not come back within the 30 s call watchdog counts as raising",
 ]
-N = {"quick": 3200, "thorough": 128000}
+N = {"quick": 6400, "thorough": 192000}
 TIME_LIMIT = {"quick": 40, "thorough": 560}
 SHARDS = 16
 REACH = {
